@@ -314,5 +314,11 @@ func (d Decimal) ToProtoDecimal() *dtpb.Decimal {
 
 // Round rounds a Decimal at the provided precision.
 func (d Decimal) Round(precision int32) Decimal {
+	// Rounding to at least as many places as the value has changes nothing; the
+	// decimal library would nevertheless rescale by 10^precision, which does not
+	// terminate in reasonable time for a large precision (1.round(2147483647)).
+	if precision >= -decimal.Decimal(d).Exponent() {
+		return d
+	}
 	return Decimal(decimal.Decimal(d).Round(precision))
 }
